@@ -27,9 +27,17 @@
    * C04_run_spec : do_run of any such grouped program (no hypothesis on tocks)
      computes the fuel-free structural specification spec_run — the model-side half
      of the argument, usable on its own.
+   * C04_flatten_deep_partial (+ _Z) : the same statement for regrouping TREES of ANY
+     depth (a tock-z0 non-always DoDoer inside a tock-z0 DoDoer, ...; empty DoDoers
+     allowed): hypothesis on every leaf below at least one DoDoer; C04_tree_run_spec is
+     the model-side half for trees (Proofs/SchedTree*.v: the three phases are proved for
+     "the loop of a scheduler" and "a group" together by induction on fuel; the
+     simulation relation follows the tree).  The one-level theorems are the special
+     case where every kid of a group is a leaf; they are kept.
 
    NOT proved (covered only by the correspondence + oracle of harness/drivers/c04.py):
-   * grouping at depth > 1 (a DoDoer inside a DoDoer) — the driver nests up to depth 3;
+   * groups with a non-zero tock or always = true below the root (the driver's C04 stream
+     does not generate them; C03 does);
    * programs with extend/remove or raising doers (outside the quantifier of C04);
    * binary64 time: the three laws fail for nan only, but the theorem is stated for
      instances satisfying them and is instantiated at Z; the driver compares
